@@ -18,6 +18,9 @@ CACHE = os.environ.get("TAU_CACHE", os.path.join(VERIF, ".cache"))
 DRIVER = os.path.join(VERIF, "taufacts", "target", "release", "taufacts")
 
 CONFIGS = {
+    "AB": "core,json,sync",
+    "AC": "core,json,ignore_case",
+    "ABC": "core,json,sync,ignore_case",
     "A": "core,json",
     "B": "core,json,sync",
     "C": "core,json,ignore_case",
@@ -418,23 +421,196 @@ def _desugar(n):
     return out
 
 
+# Functions that rules refer to by name (anchors) are never inlined; every other local function that is small, non-recursive and
+# free of early returns is a *helper* and is inlined at its call sites, so that "extract a helper" refactorings do not move the
+# constructs the rules look at.  On the pinned tree no function qualifies: the pass is the identity there.
+ANCHOR_PREFIXES = (
+    "parser::parse", "parser::parse_expr", "parser::parse_led", "parser::parse_nud", "parser::parse_mapping", "parser::parse_identifier",
+    "parser::Expression::", "parser::MatchType::", "tokeniser::", "optimiser::coalesce", "optimiser::shake", "optimiser::shake_0", "optimiser::shake_1",
+    "optimiser::rewrite", "optimiser::rewrite_search", "optimiser::matrix", "solver::solve", "solver::solve_expression", "solver::match_all",
+    "solver::match_of", "solver::search", "solver::slow_aho", "rule::Rule::", "value::Object::", "value::Value::", "error::", "core::solve", "core::solve_expression",
+)
+ANCHOR_EXACT = set(ANCHOR_PREFIXES)
+HELPER_MAX_NODES = 160
+
+
+def is_anchor(name):
+    if name.startswith("<") or "::{closure#" in name or "<impl " in name:
+        return True
+    if name in ANCHOR_EXACT:
+        return True
+    return any(name.startswith(p) and p.endswith("::") for p in ANCHOR_PREFIXES)
+
+
+def _count(n):
+    c = 0
+    for _ in walk(n):
+        c += 1
+        if c > HELPER_MAX_NODES:
+            break
+    return c
+
+
 class Fn:
-    def __init__(self, t, m):
+    def __init__(self, t, m, facts=None):
         self.name = (t or m)["fn"]
         self.thir = t
         self.mir = m
+        self.facts = facts
         self._body = None
+        self._raw = None
+
+    @property
+    def raw_body(self):
+        """Desugared THIR body (For/Try nodes), before helper inlining."""
+        if self._raw is None and self.thir is not None:
+            self._raw = _desugar(self.thir["body"])
+        return self._raw
+
+    def is_helper(self, tail=False):
+        """Small, non-recursive local function that no rule refers to by name.  With early returns (`return`, `?`) it can only be
+        inlined where its value is returned by the caller anyway (tail=True)."""
+        if self.thir is None or is_anchor(self.name) or self.thir.get("kind") not in ("Fn", "AssocFn"):
+            return False
+        b = self.raw_body
+        if _count(b) > HELPER_MAX_NODES:
+            return False
+        for x in walk(b):
+            if x.get("k") in ("Return", "Try") and not tail:
+                return False
+            if x.get("k") == "Call" and x.get("fn") == self.name:
+                return False
+        return all(p.get("pat") is not None and p["pat"].get("k") == "Bind" for p in self.thir["params"])
 
     @property
     def body(self):
-        """Normalised THIR body (For/Try nodes)."""
+        """Normalised THIR body: desugared, iterator chains as loops, helpers inlined."""
         if self._body is None and self.thir is not None:
-            self._body = _desugar(self.thir["body"])
+            b = self.raw_body
+            if self.facts is not None:
+                b = _normalise(b, self.facts, depth=0, tail=True)
+            self._body = b
         return self._body
 
     @property
     def sp(self):
         return (self.thir or self.mir)["sp"]
+
+
+def _subst(n, m):
+    """Replace parameter variables by the caller's argument expressions."""
+    if not m:
+        return n
+    if isinstance(n, list):
+        return [_subst(x, m) for x in n]
+    if not isinstance(n, dict):
+        return n
+    if n.get("k") in ("Var", "Upvar") and n.get("id") in m:
+        return m[n["id"]]
+    return {k: (v if k == "pat" else _subst(v, m)) for k, v in n.items()}
+
+
+_inline_counter = [0]
+
+
+def _reid(n, off):
+    """Give every variable of an inlined body a fresh identity (ids are only unique per function)."""
+    if isinstance(n, list):
+        return [_reid(x, off) for x in n]
+    if not isinstance(n, dict):
+        return n
+    out = {}
+    for k, v in n.items():
+        if k == "id" and isinstance(v, int):
+            out[k] = v + off
+        else:
+            out[k] = _reid(v, off)
+    return out
+
+
+def _normalise(n, F, depth, tail=False):
+    if isinstance(n, list):
+        return [_normalise(x, F, depth) for x in n]
+    if not isinstance(n, dict):
+        return n
+    k0 = n.get("k")
+    out = {}
+    for key, v in n.items():
+        if key == "pat":
+            out[key] = v
+        elif isinstance(v, (dict, list)):
+            # which children are in "return position" (their value is what the enclosing function returns)
+            t = False
+            if tail and k0 == "Block" and key == "expr":
+                t = True
+            elif tail and k0 == "If" and key in ("then", "else"):
+                t = True
+            elif k0 == "Return" and key == "value":
+                t = True
+            if k0 == "Match" and key == "arms":
+                out[key] = [{kk: (_normalise(vv, F, depth, tail) if kk == "body" else (vv if kk == "pat" else _normalise(vv, F, depth))) for kk, vv in a.items()} for a in v]
+            elif isinstance(v, dict):
+                out[key] = _normalise(v, F, depth, t)
+            else:
+                out[key] = _normalise(v, F, depth)
+        else:
+            out[key] = v
+    k = out.get("k")
+    # (1) helper inlining
+    if k == "Call" and out.get("local") and depth < 3:
+        callee = F.fns.get(out.get("fn"))
+        if callee is not None and callee.is_helper(tail=tail) and len(callee.thir["params"]) == len(out["args"]):
+            _inline_counter[0] += 1
+            off = 1000000 * _inline_counter[0]
+            stmts = []
+            subst = {}
+            for p, a in zip(callee.thir["params"], out["args"]):
+                if peel(a).get("k") in ("Var", "Upvar", "Lit", "Const") or (peel(a).get("k") == "Field" and peel(peel(a)["arg"]).get("k") in ("Var", "Upvar")):
+                    subst[p["pat"]["id"] + off] = a  # a plain variable / literal argument simply takes the parameter's place
+                else:
+                    stmts.append({"k": "Let", "sp": out["sp"], "pat": _reid(p["pat"], off), "init": a, "else": None})
+            inner = _subst(_reid(_normalise(callee.raw_body, F, depth + 1, tail), off), subst)
+            if not stmts:
+                inner = dict(inner)
+                inner["inlined"] = callee.name
+                return inner
+            return {"k": "Block", "ty": out.get("ty"), "sp": out["sp"], "unsafe": False, "stmts": stmts, "expr": inner, "inlined": callee.name}
+    # (2) `iter.map(closure).collect()` as an explicit loop that pushes in order
+    if k == "Call" and (out.get("fn") or "").endswith("Iterator::collect") and out["args"]:
+        m = peel(out["args"][0])
+        fnitem = peel(m["args"][1]) if call_is(m, "Iterator::map") else {}
+        if call_is(m, "Iterator::map") and fnitem.get("k") == "Zst" and fnitem.get("fn") and (out.get("ty") or "").startswith("std::vec::Vec<"):
+            # `.map(function)`: the same as `.map(|x| function(x))`
+            _inline_counter[0] += 1
+            vid = 1000000 * _inline_counter[0] + 999999
+            xid = vid - 1
+            outv = {"k": "Var", "ty": out["ty"], "sp": out["sp"], "name": "collected", "id": vid}
+            xv = {"k": "Var", "ty": "?", "sp": out["sp"], "name": "item", "id": xid}
+            body = {"k": "Call", "ty": "?", "sp": out["sp"], "fn": fnitem["fn"], "local": fnitem["fn"] in F.fns, "gen": [], "hir_call": True, "args": [xv]}
+            push = {"k": "Call", "ty": "()", "sp": out["sp"], "fn": "std::vec::Vec::<T, A>::push", "local": False, "gen": [], "hir_call": False, "args": [outv, body]}
+            loop = {"k": "For", "ty": "()", "sp": out["sp"], "pat": {"k": "Bind", "ty": "?", "name": "item", "id": xid, "mode": "", "sub": None}, "iter": m["args"][0], "body": push}
+            return {"k": "Block", "ty": out["ty"], "sp": out["sp"], "unsafe": False,
+                    "stmts": [{"k": "Let", "sp": out["sp"], "pat": {"k": "Bind", "ty": out["ty"], "name": "collected", "id": vid, "mode": "", "sub": None},
+                               "init": {"k": "Call", "ty": out["ty"], "sp": out["sp"], "fn": "std::vec::Vec::<T>::new", "local": False, "gen": [], "hir_call": True, "args": []}, "else": None},
+                              {"k": "Expr", "e": loop}],
+                    "expr": outv, "collected": True}
+        if call_is(m, "Iterator::map") and peel(m["args"][1]).get("k") == "Closure" and (out.get("ty") or "").startswith("std::vec::Vec<"):
+            clo = F.fns.get(peel(m["args"][1])["def"])
+            if clo is not None and clo.thir is not None:
+                ps = [p for p in clo.thir["params"] if p.get("pat") is not None]
+                if len(ps) == 1:
+                    _inline_counter[0] += 1
+                    vid = 1000000 * _inline_counter[0] + 999999
+                    outv = {"k": "Var", "ty": out["ty"], "sp": out["sp"], "name": "collected", "id": vid}
+                    body = _normalise(clo.raw_body, F, depth + 1)
+                    push = {"k": "Call", "ty": "()", "sp": out["sp"], "fn": "std::vec::Vec::<T, A>::push", "local": False, "gen": [], "hir_call": False, "args": [outv, body]}
+                    loop = {"k": "For", "ty": "()", "sp": out["sp"], "pat": ps[0]["pat"], "iter": m["args"][0], "body": push}
+                    return {"k": "Block", "ty": out["ty"], "sp": out["sp"], "unsafe": False,
+                            "stmts": [{"k": "Let", "sp": out["sp"], "pat": {"k": "Bind", "ty": out["ty"], "name": "collected", "id": vid, "mode": "", "sub": None},
+                                       "init": {"k": "Call", "ty": out["ty"], "sp": out["sp"], "fn": "std::vec::Vec::<T>::new", "local": False, "gen": [], "hir_call": True, "args": []}, "else": None},
+                                      {"k": "Expr", "e": loop}],
+                            "expr": outv, "collected": True}
+    return out
 
 
 class Facts:
@@ -449,7 +625,7 @@ class Facts:
         mm = {f["fn"]: f for f in d["mir"]}
         self.fns = {}
         for name in list(tm) + [n for n in mm if n not in tm]:
-            self.fns[name] = Fn(tm.get(name), mm.get(name))
+            self.fns[name] = Fn(tm.get(name), mm.get(name), self)
 
     def fn(self, name):
         """Exact name, or unique suffix match."""
@@ -465,9 +641,11 @@ class Facts:
 
 
 _loaded = {}
+ALIAS = {}  # thorough tier: re-run a rule module with "A" standing for another feature set
 
 
 def load(config="A", repo=None):
+    config = ALIAS.get(config, config)
     feats = CONFIGS.get(config, config)
     if config not in CONFIGS and config.startswith("S") and config in all_configs():
         feats = all_configs()[config]
